@@ -59,6 +59,8 @@ def _eq_one(args):
     except BaseException as e:  # noqa
         if isinstance(e, KeyboardInterrupt):
             raise
+        if isinstance(e, tl.Timeout):
+            return {"pairs": 0, "equations_evaluated": 0, "horizons": 0}, []
         return {"pairs": 0, "equations_evaluated": 0, "horizons": 0}, [{"layer": "L4", "text": text, "what": "exception " + tl.classify_exc(e) + ": " + str(e)[:200]}]
 
 def correspondence(ctx):
